@@ -125,6 +125,8 @@ def run(ctx):
     ctx.extra["flushdir_observations"] = nobs
     events = [e for e in events if e["ev"] != "stored"]
     traces = vlib.split_traces(events)
+    C08.infra_events(ctx, traces, save_hang_ok=True)
+    events = [e for t in traces for e in t]
     ctx.evaluations = len(traces)
     ctx.extra["events_judged"] = len(events)
     C08.install_classifier(ctx)
